@@ -197,10 +197,10 @@ def run_shard(prop, tier, seed, shard, nshards, params, only_index=None):
       except HarnessError:
         raise
       except Exception as e:  # pylint: disable=broad-except
-        if lib_frame_innermost(e.__traceback__) and ctx.label:
+        if lib_frame_innermost(e.__traceback__):
           # The library raised where the harness expected no exception at
           # all (every expected exception is caught at the step).
-          ctx.violation('unexpected-exception', str(ctx.label),
+          ctx.violation('unexpected-exception', str(ctx.label or 'unlabelled-call'),
                         ''.join(traceback.format_exception(e))[-3000:],
                         {'label': ctx.label})
         else:
